@@ -16,6 +16,8 @@ REBASED = {
     "C19-ranger-wrap": "increment-then-test in ranger.Next re-expressed on the done-flag iterator",
     "C20-truncate-bytelen": "byte-length early return re-applied to the rewritten Truncate",
 }
+# checks of other properties that are known to catch a seed as well (or instead)
+EXTRA = {"C20-r2-falsy-arg-zero": ["C12"], "C08-r2-nil-element-outer": ["C10"], "C16-nil-arg-shadow": ["C10"]}
 only = sys.argv[1:]
 rows = []
 for name in sorted(os.listdir("seeded")):
@@ -48,8 +50,16 @@ for name in sorted(os.listdir("seeded")):
         },
         "check_result": {"check": prop, "tier": "quick", "exit": int(rc.group(1)) if rc else None, "caught": bool(rc) and rc.group(1) == "1", "signatures": sigs},
     }
+    for other in EXTRA.get(name, []):
+        r2 = subprocess.run(["tools/seedrun.sh", name, other], capture_output=True, text=True).stdout
+        rc2 = re.search(r"SEEDRUN \S+ \S+ exit=(\d+)", r2)
+        meta.setdefault("also_run", []).append({"check": other, "exit": int(rc2.group(1)) if rc2 else None, "caught": bool(rc2) and rc2.group(1) == "1"})
+        if meta["also_run"][-1]["caught"] and not meta["check_result"]["caught"]:
+            meta["check_result"]["caught_by_other_check"] = other
     json.dump(meta, open(os.path.join(d, "meta.json"), "w"), indent=1)
-    rows.append((name, prop, confirmed, meta["check_result"]["caught"], sigs[0] if sigs else "", time.time() - t0))
+    caught = meta["check_result"]["caught"] or bool(meta["check_result"].get("caught_by_other_check"))
+    note = sigs[0] if sigs else ("caught by " + meta["check_result"].get("caught_by_other_check", "?"))
+    rows.append((name, prop, confirmed, caught, note, time.time() - t0))
     print(name, "confirmed" if confirmed else "NOT CONFIRMED", "caught" if meta["check_result"]["caught"] else "MISSED", "%.0fs" % (time.time() - t0), flush=True)
 
 if not only:
